@@ -250,6 +250,9 @@ def run_workers(exe, pid, tier, seed, nworkers, extra_args=(), env_extra=None, t
     wd = tempfile.mkdtemp(prefix=f"{pid}-", dir=OUT)
     env = dict(os.environ)
     env.update(SAN_ENV)
+    # ASan stores every distinct allocation stack for ever (StackDepot): deep, ever-different rapidcheck call chains made one C19 thorough
+    # worker grow to 5 GB (9.6M stacks) and the kernel killed workers. Ten frames identify an allocation site well enough.
+    env["ASAN_OPTIONS"] += ":malloc_context_size=10"
     if env_extra:
         env.update(env_extra)
     knownf = os.path.join(wd, "known.txt")
